@@ -1,6 +1,7 @@
 import Goyang.Lemmas.IncludeAugOrder
 import Goyang.Lemmas.IncludeAugView
 import Goyang.Lemmas.IncludeAugFix
+import Goyang.Lemmas.IncludeAugFinal
 /-
 C13 (third sentence), augments — (E) and (F) applied to `include_augment_loop_order`: on the canonical DUMP
 (not only on the flat view) the result of `Process` on the split set is what the augment loop run in the
@@ -12,6 +13,7 @@ namespace Goyang.Lemmas.IncludeAugCompose
 open Goyang.Model Goyang.Spec.Include Goyang.Spec.Augment Goyang.Spec.Tree Goyang.Lemmas.Tree
 open Goyang.Lemmas.IncludeAugOrder Goyang.Lemmas.IncludeAugDump Goyang.Lemmas.IncludeAugView Goyang.Lemmas.IncludeAugFix
 open Goyang.Lemmas.AugmentStep (FVisErr)
+open Goyang.Lemmas.IncludeRel Goyang.Lemmas.IncludeMain
 
 /-- Along the augment loop (any fuel, any module order), started where `processAll` starts it, every
 error-free tree has `KeysUnique`. -/
@@ -89,4 +91,153 @@ theorem split_dump_in_unsplit_order (hL : Fuel.LoadedShape R') (hpos : Bridge.Au
   exact key
 
 end Split
+section Split2
+variable {s : Split} {R R' : Registry} (opts : Opts) (plug plug' : Plug) (h : IsSplitOf s R R' plug plug')
+
+include h in
+/-- `Process` on the split set (nothing left pending, no deviation statements) is error free iff the loop run
+in the module order of the unsplit set records no error. -/
+theorem split_clean_in_unsplit_order (hL : Fuel.LoadedShape R') (hpos : Bridge.AugPosDistinct R') (hplain : Bridge.AugArgsPlain R')
+    (h1 : stage1Errs R' plug' = []) (h2 : forestErrs (forest0 R' opts plug') = [])
+    (hdev : ∀ x ∈ R'.mods, x.stmt.all "deviation" = []) (hn : NoLeftover R' opts plug') :
+    (processAll R' opts plug').errors = [] ↔ AugmentReport.allErrs (loopU R R' opts plug').forest = [] := by
+  obtain ⟨pe, _⟩ := processAll_noLeftover R' opts plug' hn hdev h1 h2
+  rw [pe]
+  unfold loopU
+  rw [← split_loop_clean_iff opts plug plug' h hL hpos hplain h2]
+  have key : ForestAll NoErrors (fixAll (afterLoop R' opts plug').2).forest ↔ ForestAll NoErrors (afterLoop R' opts plug').2.forest := by
+    constructor
+    · intro hfa t ht
+      have : (t.1, fixChoice t.2) ∈ (fixAll (afterLoop R' opts plug').2).forest.trees := by
+        unfold fixAll
+        exact List.mem_map.2 ⟨t, ht, rfl⟩
+      exact (noErrors_fixChoice _).1 (hfa _ this)
+    · intro hfa t ht
+      unfold fixAll at ht
+      obtain ⟨t0, ht0, rfl⟩ := List.mem_map.1 ht
+      exact (noErrors_fixChoice _).2 (hfa _ ht0)
+  constructor
+  · intro hc
+    exact (forestErrs_eq_nil _).2 (key.1 ((forestErrs_eq_nil _).1 (canonErrs_eq_nil _ hc)))
+  · intro hc
+    have : forestErrs (fixAll (afterLoop R' opts plug').2).forest = [] :=
+      (forestErrs_eq_nil _).2 (key.2 ((forestErrs_eq_nil _).1 hc))
+    rw [this]
+    exact IncludeNoAug.canonErrs_nil
+
+end Split2
+section Reduce
+variable {s : Split} {R R' : Registry} (opts : Opts) (plug plug' : Plug) (h : IsSplitOf s R R' plug plug')
+
+/-- What the pieces (A) and (S) (and the bookkeeping of rpc inputs / outputs) have to deliver about the two
+augment loops run in the SAME module order (that of the unsplit set): the loop over the split set records no
+error, and the owner's tree is the unsplit module's up to `SameTop σ`; `ts` is the owner's tree after the
+split set's loop in its own order. -/
+def LoopsRelated (s : Split) (R R' : Registry) (opts : Opts) (plug plug' : Plug) : Prop :=
+  AugmentReport.allErrs (loopU R R' opts plug').forest = [] ∧
+  ∃ t ts tu, (afterLoop R opts plug).2.forest.tree? s.m.seq = some t ∧
+    (afterLoop R' opts plug').2.forest.tree? s.m.seq = some ts ∧ (loopU R R' opts plug').forest.tree? s.m.seq = some tu ∧
+    SameTop s.σ tu t ∧ IOShape ts ∧ IOShape tu ∧ SameIO ts tu
+
+include h in
+theorem eq_inline_of_loopsRelated (hL : Fuel.LoadedShape R') (hpos : Bridge.AugPosDistinct R') (hplain : Bridge.AugArgsPlain R')
+    (hdev' : ∀ x ∈ R'.mods, x.stmt.all "deviation" = []) (hn' : NoLeftover R' opts plug')
+    (hdev : ∀ x ∈ R.mods, x.stmt.all "deviation" = []) (hn : NoLeftover R opts plug)
+    (hclean : (processAll R opts plug).errors = []) (hS : LoopsRelated s R R' opts plug plug') :
+    (processAll R' opts plug').errors = [] ∧ dumpOf (processAll R' opts plug') s.owner = dumpOf (processAll R opts plug) s.m := by
+  obtain ⟨a1, a2⟩ := IncludeNoAug.processAll_clean_stages R opts plug hclean
+  obtain ⟨hlink, b1⟩ := stage1_split plug plug' h a1
+  have b2 := (conv_split opts plug plug' h hlink a2).1
+  obtain ⟨hcu, t, ts, tu, ht, hts, htu, hst, hss, hsu, hio⟩ := hS
+  have hclean' : (processAll R' opts plug').errors = [] :=
+    (split_clean_in_unsplit_order opts plug plug' h hL hpos hplain b1 b2 hdev' hn').2 hcu
+  refine ⟨hclean', ?_⟩
+  obtain ⟨_, pf⟩ := processAll_noLeftover R opts plug hn hdev a1 a2
+  have hseq : s.owner.seq = s.m.seq := h.regs.owner_seq
+  have k1 := split_dump_in_unsplit_order opts plug plug' h hL hpos hplain b1 b2 hdev' hn' hclean' s.owner
+    (by rw [hseq]; exact hts) (by rw [hseq]; exact htu) hss hsu hio
+  rw [k1]
+  have e1 : (fixAll (afterLoop R opts plug).2).forest = AugmentReport.fixAll (afterLoop R opts plug).2.forest := rfl
+  have hT : (processAll R opts plug).forest.tree? s.m.seq = some (fixChoice t) := by
+    rw [pf, e1, AugmentReport.tree?_fixAll, ht]; rfl
+  have hnd := names_nodup_of_clean R opts plug hclean _ _ hT
+  exact IncludeAugFinal.dumpOf_sameTop h (processAll R opts plug)
+    { errors := [], forest := AugmentReport.fixAll (loopU R R' opts plug').forest, reg := R' }
+    (IncludeDump.processAll_reg R opts plug) rfl hT (by rw [AugmentReport.tree?_fixAll, htu]; rfl)
+    (sameTop_fixChoice s.σ tu t hst) hnd
+
+end Reduce
+
+/-! ### `IOShape` / `NoRpc` under `ren σ` and `SameTop` (for the non-vacuity examples) -/
+
+theorem everyNode_ren (σ : Nat → Nat) (q : Entry → Bool)
+    (hq : ∀ d c i o, q (.mk (renD σ d) (c.map (ren σ)) (i.map (ren σ)) (o.map (ren σ))) = q (.mk d c i o)) (e : Entry) :
+    everyNode q (ren σ e) = true ↔ everyNode q e = true := by
+  induction e using entry_ind with
+  | h d c i o hc hi ho =>
+    rw [ren_mk, everyNode_mk, everyNode_mk, hq]
+    have hl : ∀ l : List Entry, (∀ x ∈ l, everyNode q (ren σ x) = true ↔ everyNode q x = true) →
+        ((∀ x ∈ l.map (ren σ), everyNode q x = true) ↔ ∀ x ∈ l, everyNode q x = true) := by
+      intro l hl
+      constructor
+      · intro h1 x hx; exact (hl x hx).1 (h1 _ (List.mem_map_of_mem hx))
+      · intro h1 y hy
+        obtain ⟨x, hx, rfl⟩ := List.mem_map.1 hy
+        exact (hl x hx).2 (h1 x hx)
+    rw [hl c hc, hl i hi, hl o ho]
+
+theorem ioShapeHere_ren (σ : Nat → Nat) (d : EData) (c i o : List Entry) :
+    ioShapeHere (.mk (renD σ d) (c.map (ren σ)) (i.map (ren σ)) (o.map (ren σ))) = ioShapeHere (.mk d c i o) := by
+  cases hr : d.isRpc <;> simp [ioShapeHere, Entry.d, Entry.dir, Entry.inp, Entry.out, renD, hr]
+
+theorem noRpcHere_ren (σ : Nat → Nat) (d : EData) (c i o : List Entry) :
+    noRpcHere (.mk (renD σ d) (c.map (ren σ)) (i.map (ren σ)) (o.map (ren σ))) = noRpcHere (.mk d c i o) := by
+  simp [noRpcHere, Entry.d, renD]
+
+theorem sameTop_children (σ : Nat → Nat) (q : Entry → Bool)
+    (hq : ∀ d c i o, q (.mk (renD σ d) (c.map (ren σ)) (i.map (ren σ)) (o.map (ren σ))) = q (.mk d c i o))
+    {t' t : Entry} (h : SameTop σ t' t) (ht : ∀ x ∈ t.dir, everyNode q x = true) : ∀ x ∈ t'.dir, everyNode q x = true := by
+  intro x hx
+  have : ren σ x ∈ t.dir := by
+    apply h.2.1.mem_iff.1
+    rw [renL_eq_map]
+    exact List.mem_map_of_mem hx
+  exact (everyNode_ren σ q hq x).1 (ht _ this)
+
+theorem ioShape_sameTop (σ : Nat → Nat) {t' t : Entry} (h : SameTop σ t' t) (ht : IOShape t) : IOShape t' := by
+  cases t' with | mk d' c' i' o' =>
+  cases t with | mk d c i o =>
+  have hch := sameTop_children σ ioShapeHere (ioShapeHere_ren σ) h
+  obtain ⟨hd, hp, ⟨hi', hi⟩, ⟨ho', ho⟩⟩ := h
+  simp only [Entry.d, Entry.dir, Entry.inp, Entry.out] at hd hp hi' hi ho' ho hch
+  subst hi' hi ho' ho
+  unfold IOShape at ht ⊢
+  rw [everyNode_mk] at ht ⊢
+  refine ⟨?_, hch ht.2.1, by simp, by simp⟩
+  have hr : d'.isRpc = d.isRpc := by unfold SameData at hd; rw [hd]
+  have hlen : c'.isEmpty = c.isEmpty := by
+    have := hp.length_eq
+    rw [renL_eq_map, List.length_map] at this
+    cases c' <;> cases c <;> simp_all
+  have := ht.1
+  simp only [ioShapeHere, Entry.d, Entry.dir, Entry.inp, Entry.out] at this ⊢
+  simp only [hr, hlen]
+  exact this
+
+theorem noRpc_sameTop (σ : Nat → Nat) {t' t : Entry} (h : SameTop σ t' t) (ht : NoRpc t) : NoRpc t' := by
+  cases t' with | mk d' c' i' o' =>
+  cases t with | mk d c i o =>
+  have hch := sameTop_children σ noRpcHere (noRpcHere_ren σ) h
+  obtain ⟨hd, hp, ⟨hi', hi⟩, ⟨ho', ho⟩⟩ := h
+  simp only [Entry.d, Entry.dir, Entry.inp, Entry.out] at hd hp hi' hi ho' ho hch
+  subst hi' hi ho' ho
+  unfold NoRpc at ht ⊢
+  rw [everyNode_mk] at ht ⊢
+  refine ⟨?_, hch ht.2.1, by simp, by simp⟩
+  have hr : d'.isRpc = d.isRpc := by unfold SameData at hd; rw [hd]
+  have := ht.1
+  simp only [noRpcHere, Entry.d] at this ⊢
+  rw [hr]
+  exact this
+
 end Goyang.Lemmas.IncludeAugCompose
